@@ -423,3 +423,130 @@ Proof.
       apply jn_no_nl. apply (proj1 (Forall_forall _ _) HW). exact Hx.
 Qed.
 End Transport.
+
+(* ====================================================================== *)
+(* the re-flow keeps the words and the paragraph breaks                      *)
+Section Paragraphs.
+Variable maxw : Z.
+
+(* paragraphs of a list of lines-as-word-lists: maximal runs of non-empty lines, words concatenated *)
+Definition pflush (st : list (list (list N)) * list (list N)) : list (list (list N)) :=
+  match snd st with [] => fst st | _ => fst st ++ [snd st] end.
+Definition pstep (st : list (list (list N)) * list (list N)) (line : list (list N)) :=
+  match line with
+  | [] => (pflush st, [])
+  | _ => (fst st, snd st ++ line)
+  end.
+Definition pstate (lines : list (list (list N))) := fold_left pstep lines ([], []).
+Definition paras (lines : list (list (list N))) : list (list (list N)) := pflush (pstate lines).
+
+Lemma pstate_app a b : pstate (a ++ b) = fold_left pstep b (pstate a).
+Proof. unfold pstate. apply fold_left_app. Qed.
+
+Lemma fold_pstep_nonempty : forall E st, Forall (fun l => l <> []) E ->
+  fold_left pstep E st = (fst st, snd st ++ concat E).
+Proof.
+  induction E as [|l r IH]; intros st H; cbn [fold_left concat]; [rewrite app_nil_r; destruct st; reflexivity|].
+  inversion H; subst. rewrite IH by assumption. destruct l as [|w ws]; [congruence|]. cbn [pstep fst snd].
+  rewrite <- app_assoc. reflexivity.
+Qed.
+
+(* flowW only regroups words *)
+Lemma flowW_words : forall ws pw out,
+  let '(pw', out') := flowW maxw ws pw out in
+  exists E, out' = out ++ E /\ Forall (fun l => l <> []) E /\ concat E ++ pw' = pw ++ ws.
+Proof.
+  induction ws as [|x r IH]; intros pw out; cbn [flowW].
+  - exists []. rewrite !app_nil_r. auto.
+  - destruct pw as [|p0 pr].
+    + specialize (IH [x] out). destruct (flowW maxw r [x] out) as [pw' out']. destruct IH as (E & A & B & C).
+      exists E. auto.
+    + destruct (overflow maxw (p0 :: pr) x).
+      * specialize (IH [x] (out ++ [p0 :: pr])). destruct (flowW maxw r [x] (out ++ [p0 :: pr])) as [pw' out'].
+        destruct IH as (E & A & B & C). exists ((p0 :: pr) :: E). split; [rewrite A, <- app_assoc; reflexivity|].
+        split; [constructor; [discriminate|exact B]|]. cbn [concat]. rewrite <- app_assoc, C. reflexivity.
+      * specialize (IH ((p0 :: pr) ++ [x]) out). destruct (flowW maxw r ((p0 :: pr) ++ [x]) out) as [pw' out'].
+        destruct IH as (E & A & B & C). exists E. split; [exact A|]. split; [exact B|]. rewrite C, <- app_assoc. reflexivity.
+Qed.
+
+(* the machine's output plus its pending words has the paragraph state of the lines read so far *)
+Definition popen (out : list (list (list N))) (pw : list (list N)) := (fst (pstate out), snd (pstate out) ++ pw).
+
+Definition pinv (s : list (list N) * bool * list (list (list N))) (L1 : list (list (list N))) : Prop :=
+  let '(pw, le, out) := s in
+  popen out pw = pstate L1 /\ (pw <> [] -> le = false) /\ (pw = [] -> le = true /\ snd (pstate L1) = []).
+
+Lemma flowW_pending : forall ws pw out pw' out', ws <> [] -> flowW maxw ws pw out = (pw', out') -> pw' <> [].
+Proof.
+  induction ws as [|y ys IHws]; intros pw out pw' out' Hne Hf; [congruence|]. cbn [flowW] in Hf.
+  destruct ys as [|z zs].
+  - destruct pw as [|p0 pr]; cbn [flowW] in Hf.
+    + injection Hf as <- _. discriminate.
+    + destruct (overflow maxw (p0 :: pr) y); injection Hf as <- _; [discriminate|destruct pr; discriminate].
+  - destruct pw as [|p0 pr]; [eapply IHws; [discriminate|exact Hf]|].
+    destruct (overflow maxw (p0 :: pr) y); eapply IHws; try exact Hf; discriminate.
+Qed.
+
+Lemma pstate_snoc L1 line : pstate (L1 ++ [line]) = pstep (pstate L1) line.
+Proof. rewrite pstate_app. reflexivity. Qed.
+
+Lemma step_pinv s L1 line : pinv s L1 -> pinv (step maxw s line) (L1 ++ [line]).
+Proof.
+  destruct s as [[pw le] out]. intros (Hp & Hne & He). unfold popen in Hp.
+  destruct line as [|x r].
+  - cbn [step]. unfold pinv. rewrite pstate_snoc. cbn [pstep snd].
+    split; [|split; [congruence|intros _; split; reflexivity]].
+    unfold popen. rewrite app_nil_r. rewrite <- Hp. unfold pflush. cbn [fst snd].
+    destruct pw as [|p0 pr].
+    + destruct (He eq_refl) as [-> Hc]. cbn [flush]. rewrite app_nil_r. destruct (pstate out) as [d c]. cbn [fst snd].
+      rewrite <- Hp in Hc. cbn in Hc. rewrite app_nil_r in Hc. subst c. reflexivity.
+    + rewrite (Hne ltac:(discriminate)). cbn [flush]. rewrite !pstate_snoc.
+      destruct (pstate out) as [d c]. cbn [pstep fst snd pflush].
+      destruct (c ++ p0 :: pr) as [|y ys] eqn:E; [destruct c; discriminate|]. reflexivity.
+  - rewrite step_wordline by discriminate.
+    pose proof (flowW_words (x :: r) pw out) as Hw.
+    destruct (flowW maxw (x :: r) pw out) as [pw' out'] eqn:Ef. destruct Hw as (E & A & B & C).
+    assert (Hpw' : pw' <> []) by (eapply flowW_pending; [|exact Ef]; discriminate).
+    unfold pinv. split; [|split; [reflexivity|contradiction]].
+    unfold popen. rewrite pstate_snoc, A, pstate_app, (fold_pstep_nonempty E _ B). cbn [fst snd pstep].
+    rewrite <- Hp. cbn [fst snd]. f_equal. rewrite <- !app_assoc. f_equal. exact C.
+Qed.
+
+Lemma run_pinv : forall L2 s L1, pinv s L1 -> pinv (run maxw s L2) (L1 ++ L2).
+Proof.
+  induction L2 as [|l r IH]; intros s L1 H; [rewrite app_nil_r; exact H|].
+  cbn [run fold_left]. replace (L1 ++ l :: r) with ((L1 ++ [l]) ++ r) by (rewrite <- app_assoc; reflexivity).
+  apply IH. apply step_pinv. exact H.
+Qed.
+
+(* the re-flow at word level keeps the paragraphs *)
+Theorem paras_G lines : paras (G maxw lines) = paras lines.
+Proof.
+  unfold G. pose proof (run_pinv lines (init) [] ) as H. cbn [app] in H.
+  assert (H0 : pinv init []) by (cbn; repeat split; congruence).
+  specialize (H H0). destruct (run maxw init lines) as [[pw le] out]. destruct H as (Hp & _ & _).
+  cbn [finish]. unfold paras. rewrite <- Hp. unfold popen. destruct pw as [|p0 pr]; cbn [flush].
+  - rewrite app_nil_r. destruct (pstate out); reflexivity.
+  - rewrite pstate_snoc. destruct (pstate out) as [d c]. cbn [pstep fst snd]. reflexivity.
+Qed.
+End Paragraphs.
+
+(* at the level of the Go function: the lines it returns, joined as doDescription / popDescription do,
+   have the paragraphs of the input *)
+Theorem reflow_paras maxw input :
+  paras (map fields (split_on 10 (join_with 10 (reformat_description input maxw)))) =
+  paras (map fields (split_on 10 input)).
+Proof.
+  rewrite (reformat_is_G maxw input). set (L := map fields (split_on 10 input)).
+  assert (HW : Forall (Forall word_ok) (G maxw L)).
+  { apply G_ok. apply Forall_forall. intros l Hl. apply in_map_iff in Hl. destruct Hl as (x & <- & _). apply fields_ok. }
+  rewrite <- (paras_G maxw L).
+  destruct (G maxw L) as [|l0 W'] eqn:EW.
+  - reflexivity.
+  - rewrite split_join.
+    + rewrite map_map. rewrite (map_ext_in _ (fun x => x)), map_id; [reflexivity|].
+      intros l Hl. apply fields_jn. apply (proj1 (Forall_forall _ _) HW). exact Hl.
+    + discriminate.
+    + apply Forall_forall. intros l Hl. apply in_map_iff in Hl. destruct Hl as (x & <- & Hx).
+      apply jn_no_nl. apply (proj1 (Forall_forall _ _) HW). exact Hx.
+Qed.
